@@ -24,7 +24,7 @@ ENCODED = ["mchap.application.baseclass.program.run_stdout", "mchap.application.
            "mchap.calling.classes.GenotypeAllelesMultiTrace.posterior", "mchap.calling.classes.PosteriorGenotypeAllelesDistribution.mode", "mchap.calling.classes.PosteriorGenotypeAllelesDistribution.as_array",
            "mchap.calling.classes.GenotypeAllelesMultiTrace.posterior_frequencies", "mchap.calling.classes.GenotypeAllelesMultiTrace.replicate_incongruence",
            "mchap.assemble.classes.GenotypeMultiTrace.posterior", "mchap.assemble.classes.PosteriorGenotypeDistribution.mode_genotype_support", "mchap.assemble.classes.PosteriorGenotypeDistribution.allele_frequencies",
-           "mchap.application.arguments.parse_sample_pools", "mchap.application.arguments.parse_pedigree_arguments"]
+           "mchap.application.arguments.parse_sample_pools", "mchap.application.arguments.parse_pedigree_arguments", "mchap.io.loci.LocusPrior.from_variant_record"]
 STUBS = ["np.random.seed and mchap.jitutils.seed_numba -> recorders of (generator, seed)",
          "every RNG-consuming callee (_denovo_assembler, sample_snv_alleles, calling/pedigree mcmc_sampler, greedy_caller is deterministic) -> recorder returning a value that is an uninterpreted function of (its arguments, generator states); generator state after seeding = S(seed)",
          "the RNG state before fit() and the results of earlier fits are symbolic (arbitrary history)",
@@ -35,7 +35,7 @@ ASSUMES = ["numba's and numpy's generators are deterministic functions of their 
            "the record of a locus is a function of (locus, inputs, seed) -- that is the seeding core above -- so the multi-core group uses opaque record lines"]
 BOUNDS = {"quick": "assemble: 0 or 2 reads, sites all fixed / some / none (symbolic homozygosity probabilities and threshold), initial genotype given or sampled, 1-2 chains, 1-2 temperatures; call: with/without variants, initial given or greedy; pedigree: initial given or greedy; application loops: 2 samples; "
                    "multi-core: (loci, cores) in {(1,1),(2,1),(1,2),(2,2),(3,2)}, failing locus in {none, each locus}, ALL schedules; "
-                   "state-leak: each of the four programs processes a 3-sample locus twice (program attributes and module-level containers compared), --report parsing four times; cli-attrs: the four programs' command lines with all options given distinctive values / left out, seed in {none, 0, 29}, ploidy in {2, 4}; refit: each of the five sampler classes fitted to two read sets in turn vs a fresh object; hash-order: every 2x2-step call trace over 6 diploid genotypes and assemble trace over 4, --report subsets/rotations of 5 names, 48 pool files, 24 pedigree files, every iteration order of sets of up to 3 elements (6 representative orders beyond)",
+                   "state-leak: each of the four programs processes a 3-sample locus twice (program attributes and module-level containers compared), --report parsing four times; history: every ordered pair of 16 haplotype records (1-2 ALTs, reference masked or not, flat / tagged prior, with / without allele filter) through LocusPrior.from_variant_record vs freshly loaded modules; cli-attrs: the four programs' command lines with all options given distinctive values / left out, seed in {none, 0, 29}, ploidy in {2, 4}; refit: each of the five sampler classes fitted to two read sets in turn vs a fresh object; hash-order: every 2x2-step call trace over 6 diploid genotypes and assemble trace over 4, --report subsets/rotations of 5 names, 48 pool files, 24 pedigree files, every iteration order of sets of up to 3 elements (6 representative orders beyond)",
           "thorough": "same fit() space (small, fully explored); multi-core: adds (4,2),(2,3),(3,3),(4,3),(5,2),(5,3)"}
 OUTSIDE = ("the OS / CPython implementation of multiprocessing (processes, pickling, pipes, signals) is replaced by its documented contract; more loci / cores than the bound; "
            "iteration over the targets file by pysam (locus order/subsets are covered only through 'a record depends on its locus and the seed alone'); header date/command lines; "
@@ -74,6 +74,8 @@ def configs(tier):
     # a model object (public API: parameterised once, fitted to many samples) fitted twice == a fresh object
     for cls in wiring.CLASSES:
         out.append(dict(group="refit", cls=cls))
+    # "regardless of what was computed earlier in the same process": locus construction after another locus == in a fresh process
+    out.append(dict(group="history", target="locus-prior"))
     # argv -> program object: --mcmc-seed (0 is a legal seed), --ploidy, and every numeric option reach the attribute of that meaning
     for prog in wiring.CLI_PROGS:
         out.append(dict(group="cli-attrs", prog=prog))
@@ -595,6 +597,104 @@ def _run_state_leak(c, col):
             col.ok("parse_report_fields returns fresh lists: module-level DEFAULT_FIELDS unchanged, results independent of earlier calls and of edits to earlier results")
 
 
+HIST_SEQS = ["AAA", "ACA", "AAT"]
+
+
+def _hist_record(k):
+    """record number k of the history domain: (number of ALTs, reference masked?, prior from tag / flat, allele filter?)"""
+    from checks import c16
+
+    n_alt, masked, tagged, filt = 1 + (k & 1), bool(k >> 1 & 1), bool(k >> 2 & 1), bool(k >> 3 & 1)
+    info = {"AFX": tuple([0.5, 0.25, 0.25][: n_alt + 1])}
+    if masked:
+        info["REFMASKED"] = True
+    rec = c16._Record(HIST_SEQS[0], HIST_SEQS[1: n_alt + 1], info, {"AFX": c16._Meta("R", "Float")})
+    kw = dict(frequency_tag="AFX" if tagged else None, allele_filter="AFX>=0.3" if filt else None)
+    return rec, kw
+
+
+def _hist_view(lp):
+    return dict(frequencies=[repr(float(x)) for x in rnp.asarray(lp.frequencies, dtype=float)], masked=bool(lp.mask_reference_allele), sequence=str(lp.sequence),
+                alts=[str(a) for a in lp.alts])
+
+
+def _hist_drive(load, fresh, k1, k2):
+    """locus k2 built right after locus k1 in one process, and locus k2 built by freshly loaded modules"""
+    lo = load("mchap.io.loci")
+    r1, kw1 = _hist_record(k1)
+    r2, kw2 = _hist_record(k2)
+    try:
+        lo.LocusPrior.from_variant_record(r1, **kw1)
+    except Exception:  # a record the program rejects is rejected; what follows must not care
+        pass
+    after = _hist_view(lo.LocusPrior.from_variant_record(r2, **kw2))
+    lo2 = fresh("mchap.io.loci")
+    r2b, kw2b = _hist_record(k2)
+    alone = _hist_view(lo2.LocusPrior.from_variant_record(r2b, **kw2b))
+    return after, alone
+
+
+def _run_history(c, col):
+    site = "mchap.io.loci.LocusPrior.from_variant_record"
+    E.cfg.concrete_floats = True
+
+    def fresh(name):
+        E.reset_modules()
+        return E.load(name)
+
+    def body(ctx):
+        k1 = int(E.SymInt(E.fresh_int(ctx, "k1", 0, 15)))
+        k2 = int(E.SymInt(E.fresh_int(ctx, "k2", 0, 15)))
+        E.reset_modules()
+        return k1, k2, _hist_drive(E.load, fresh, k1, k2)
+
+    try:
+        first = True
+        for pr in E.explore(body, stats=col.stats):
+            if pr.exc is not None:
+                e = pr.exc
+                if isinstance(e, (ValueError, AssertionError)):  # the second record itself is not acceptable input (e.g. every allele filtered out)
+                    col.path()
+                    col.ok("second record rejected by the program (same with and without history is not asked of rejected input)")
+                    continue
+                col.fail(site, "exception", shape=dict(target="locus-prior"), witness=dict(exc=repr(e)), desc="raised %r" % (e,))
+                continue
+            col.path()
+            if first:
+                col.reachable(pr.ctx)
+                first = False
+            k1, k2, (after, alone) = pr.value
+            if after != alone:
+                col.fail(site, "history-dependence", shape=dict(target="locus-prior"), witness=dict(k1=k1, k2=k2, after_other_locus=after, alone=alone),
+                         desc="a locus built after another one differs from the same locus built first: %s" % _first_diff(after, alone), model=dict(k1=k1, k2=k2))
+            else:
+                col.ok("locus built after another locus == the same locus built by freshly loaded modules (both records solver-enumerated)")
+    finally:
+        E.cfg.concrete_floats = False
+        E.reset_modules()
+
+
+def _replay_history(v):
+    import importlib
+
+    w = v.get("witness") or {}
+    state = {}
+
+    def load(name):
+        state["m"] = importlib.import_module(name)
+        return state["m"]
+
+    def fresh(name):
+        return importlib.reload(state["m"])
+
+    try:
+        after, alone = _hist_drive(load, fresh, int(w["k1"]), int(w["k2"]))
+    finally:
+        if "m" in state:
+            importlib.reload(state["m"])
+    return after != alone, "real modules: locus %d built after locus %d: %s; built by a freshly loaded module: %s" % (w["k2"], w["k1"], after, alone)
+
+
 def _run_cli_attrs(c, col):
     from checks import wiring
 
@@ -929,6 +1029,8 @@ def replay(v):
         from checks import wiring
 
         return wiring.replay_real(v, wiring.run_cli_attrs)
+    if g == "history":
+        return _replay_history(v)
     if g == "rng-sources":
         g = "assemble"
     rs = v["config"].get("seed", 11)
